@@ -30,8 +30,8 @@ func (r *RNG) Intn(n int) int {
 	}
 	return int(r.U64() % uint64(n))
 }
-func (r *RNG) Bool() bool        { return r.U64()&1 == 1 }
-func (r *RNG) Chance(p int) bool { return r.Intn(100) < p }
+func (r *RNG) Bool() bool          { return r.U64()&1 == 1 }
+func (r *RNG) Chance(p int) bool   { return r.Intn(100) < p }
 func Pick[T any](r *RNG, xs []T) T { return xs[r.Intn(len(xs))] }
 
 // ---- Coq term writers ----
@@ -92,20 +92,20 @@ func cPair(a, b string) string { return "(" + a + ", " + b + ")" }
 // ---- output directory / plan ----
 
 type Expect struct {
-	File string `json:"file"`
-	Name string `json:"name"` // printed definition R_...
-	Kind string `json:"kind"` // "empty" (list of case indices must be []) | "true"
-	What string `json:"what"` // "mismatch" (model vs impl) | "violation" (spec_b on impl output) | "obligation"
-	Desc string `json:"desc"`
+	File      string `json:"file"`
+	Name      string `json:"name"` // printed definition R_...
+	Kind      string `json:"kind"` // "empty" (list of case indices must be []) | "true"
+	What      string `json:"what"` // "mismatch" (model vs impl) | "violation" (spec_b on impl output) | "obligation"
+	Desc      string `json:"desc"`
 	KeySuffix string `json:"key_suffix,omitempty"` // appended to the case key of a violation found by this check
 }
 
 type Case struct {
-	Index int    `json:"index"`
-	Key   string `json:"key"`   // input class, used for known-finding matching
-	Desc  string `json:"desc"`  // human readable input
-	Input any    `json:"input"` // replayable input
-	Nontrivial bool `json:"nontrivial"`
+	Index      int    `json:"index"`
+	Key        string `json:"key"`   // input class, used for known-finding matching
+	Desc       string `json:"desc"`  // human readable input
+	Input      any    `json:"input"` // replayable input
+	Nontrivial bool   `json:"nontrivial"`
 }
 
 type GoViolation struct {
@@ -115,16 +115,16 @@ type GoViolation struct {
 }
 
 type Plan struct {
-	Property     string            `json:"property"`
-	Stages       [][]string        `json:"stages"` // .v files (relative to out dir) compiled stage by stage
-	Expect       []Expect          `json:"expect"`
-	Obligations  []string          `json:"obligations"` // lemma names proved in Gen files
-	Cases        []Case            `json:"cases"`
-	GoViolations []GoViolation     `json:"go_violations"` // found directly by the harness (toolchain oracle etc.)
-	Stats        map[string]any    `json:"stats"`
-	Samples      []any             `json:"samples"`
-	Rule         string            `json:"rule"`
-	EnvValidation map[string]any   `json:"env_validation"`
+	Property      string         `json:"property"`
+	Stages        [][]string     `json:"stages"` // .v files (relative to out dir) compiled stage by stage
+	Expect        []Expect       `json:"expect"`
+	Obligations   []string       `json:"obligations"` // lemma names proved in Gen files
+	Cases         []Case         `json:"cases"`
+	GoViolations  []GoViolation  `json:"go_violations"` // found directly by the harness (toolchain oracle etc.)
+	Stats         map[string]any `json:"stats"`
+	Samples       []any          `json:"samples"`
+	Rule          string         `json:"rule"`
+	EnvValidation map[string]any `json:"env_validation"`
 }
 
 type Out struct {
